@@ -180,6 +180,22 @@ def run(ctx) -> None:
 
     generators(ctx, RSY, RSY, P)
 
+    # ---- native paths name the real entry: they are wd->path look-ups, so the table must be current when a record is resolved
+    RNB = ctx.rule(
+        "C19/native-paths-name-the-entry",
+        "a native record's path is the current name of its directory joined with the record's name: the reader re-keys a renamed directory "
+        "and its watched descendants, and prunes only the dying descriptor's entry, before the next record of the read is resolved "
+        "(instances shared with C02 / C03)",
+        floor=5,
+    )
+    from .c02 import check_rows
+
+    _sink = ctx.rule("C19/_shared-not-owned", "(rows of the shared bookkeeping contract that C19 does not own)", floor=0)
+    n0 = len(ctx.instances)
+    check_rows(ctx, _sink, RNB, _sink, RNB, _sink, _sink)
+    ctx.instances[n0:] = [i for i in ctx.instances[n0:] if i.rule != _sink]
+    del ctx.rules[_sink], ctx.floors[_sink]
+
     # ---- raw codecs
     from ..fixtures import FX_CODEC, must_fire, raw_codec_calls
 
